@@ -187,6 +187,13 @@ func (r *Runner) vecFor(n, tok string) []float32 {
 	for i := range v {
 		v[i] = base[i%len(base)] * float32(1+i/len(base))
 	}
+	// on a cosine index only the direction of a vector is stored: in variant 1 the caller hands v2 over four orders of
+	// magnitude smaller (norm below 1e-3) -- what is read back is the same unit vector
+	if c, ok := r.created[n]; ok && tok == "v2" && r.P.Variant%3 == 1 && c.metric == distance.Cosine {
+		for i := range v {
+			v[i] *= 1e-4
+		}
+	}
 	return v
 }
 
